@@ -144,6 +144,14 @@ def check(program: Program, run: Run) -> None:
 
     # ---- R3 embedding sites
     found = set()
+    # a join object is only ever rendered by a statement: a flag its renderer passes on unchanged has the value the
+    # statements deliver at their `_joins[]` site (so the context may be derived by the statement or by the join)
+    join_names = {k.qualname for k in program.all_classes() if k.qualname == "Join" or k.is_subclass_of(program.cls("Join"))}
+    delivered_to_joins: dict[str, set] = {}
+    for s in sites:
+        if isinstance(s["ctx"], CtxV) and s["method"] == "get_sql" and s["func"].rsplit(".", 1)[0] in stmt_classes and root_attr(s["recv"]) == "_joins":
+            for flag_, v_ in s["ctx"].fields.items():
+                delivered_to_joins.setdefault(flag_, set()).add(v_)
     for s in sites:
         if not isinstance(s["ctx"], CtxV) or s["method"] != "get_sql":
             continue
@@ -166,7 +174,8 @@ def check(program: Program, run: Run) -> None:
         where = f"{s['file']}:{s['line']}"
         for flag, want in req.items():
             v = s["ctx"].fields[flag]
-            ok = v == Const(want)
+            vals = delivered_to_joins.get(flag, {v}) if (fcls in join_names and isinstance(v, Inh) and v.name == flag) else {v}
+            ok = all(x == Const(want) for x in vals)
             run.ob("C10/R3 embedding site passes the flag its position needs", f"{s['func']}:{s['recv']}:{flag}={want}", ok, detail=show(v)[:60], where=where)
             if not ok:
                 run.finding(f"C10/embed-flag:{s['func']}:{ra}:{flag}", f"{s['func']} renders `{s['recv']}` with {flag}={show(v)[:40]} (position needs {want}): "
